@@ -330,8 +330,10 @@ var TreeMarshalTypeID = network.RegisterMessage(TreeMarshal{})
 // TreeMarshal
 func TreeMarshalCopyTree(tr *TreeNode) *TreeMarshal {
 	tm := &TreeMarshal{
-		TreeNodeID:       tr.ID,
-		ServerIdentityID: tr.ServerIdentity.ID,
+		TreeNodeID: tr.ID,
+		// the identifier derived from the key, not the (deprecated) ID field,
+		// which an identity made without NewServerIdentity does not carry
+		ServerIdentityID: tr.ServerIdentity.GetID(),
 	}
 	for i := range tr.Children {
 		tm.Children = append(tm.Children,
@@ -366,7 +368,7 @@ func (tm TreeMarshal) MakeTree(ro *Roster) (*Tree, error) {
 
 // MakeTreeFromList creates a sub-tree given an Roster
 func (tm *TreeMarshal) MakeTreeFromList(parent *TreeNode, ro *Roster) (*TreeNode, error) {
-	idx, ent := ro.Search(tm.ServerIdentityID)
+	idx, ent := ro.searchByKey(tm.ServerIdentityID)
 	if idx < 0 {
 		return nil, xerrors.New("didn't find node in roster")
 	}
@@ -498,6 +500,19 @@ func (ro *Roster) GetID() (RosterID, error) {
 func (ro *Roster) Search(eID network.ServerIdentityID) (int, *network.ServerIdentity) {
 	for i, e := range ro.List {
 		if e.ID.Equal(eID) {
+			return i, e
+		}
+	}
+	return -1, nil
+}
+
+// searchByKey looks for a corresponding entry by the identifier derived from
+// its public key and returns the index and the entry, or -1 and nil. The
+// (deprecated) ID field of an entry may be missing, and in a roster received
+// from a peer it may claim the identifier of another entry.
+func (ro *Roster) searchByKey(eID network.ServerIdentityID) (int, *network.ServerIdentity) {
+	for i, e := range ro.List {
+		if e.GetID().Equal(eID) {
 			return i, e
 		}
 	}
